@@ -193,9 +193,10 @@ MkSel(slice, checks, rep, exclude, mrt, pdaExp, pdaSt, ndrSt, mrhSt, lowerX) ==
 (* slice "sel": the algebra - every subset of five names / all, every small exclusion / all, every on-off combination of the options *)
 ChecksOpts == {SubSeqOf(S) : S \in SUBSET Range(R5)} \cup {<<"all">>, <<"all", NASE>>, <<NDR, "all">>}
 ExcludeOpts == {SubSeqOf(S) : S \in {T \in SUBSET Range(R5) : Cardinality(T) <= (IF Thorough THEN 2 ELSE 1)}} \cup {<<"all">>}
-SelSels == {MkSel("sel", ch, FALSE, ex, mrt, pe, ps, ns, ms, FALSE) :
-              ch \in ChecksOpts, ex \in ExcludeOpts, mrt \in {0, 1000}, pe \in BOOLEAN,
-              ps \in {<<>>, St2}, ns \in {<<>>, <<Pat(4, X, X)>>}, ms \in {<<>>, <<Pat(4, 0, 6)>>}}
+SelSels == {s \in {MkSel("sel", ch, FALSE, ex, mrt, pe, ps, ns, ms, FALSE) :
+                     ch \in ChecksOpts, ex \in ExcludeOpts, mrt \in {0, 1000}, pe \in BOOLEAN,
+                     ps \in {<<>>, St2}, ns \in {<<>>, <<Pat(4, X, X)>>}, ms \in {<<>>, <<Pat(4, 0, 6)>>}} :
+               Thorough \/ (s.ndrSt = <<>> <=> s.mrhSt = <<>>)}      \* quick tier: these two lists are given together or not at all
            \cup {MkSel("sel", ch, TRUE, ex, 0, FALSE, <<>>, <<>>, <<>>, FALSE) :       \* the option repeated instead of a comma list
               ch \in {<<NASE, NDR>>, <<NDR, "all">>, <<IA, PDA, NASE>>}, ex \in {<<>>, <<NDR, IA>>}}
 (* slice "verdict": every check on, one configuration dimension varied at a time *)
@@ -262,6 +263,7 @@ CasesOf(sel) == CASE sel.slice = "sel" -> IF Thorough \/ (sel.pdaSt = <<>> /\ se
 
 (* ------------------------------------------------------------------ the family: answers of the API *)
 Statuses == {200, 201, 204, 301, 400, 401, 403, 404, 405, 406, 409, 422, 428, 500, 501, 503}
+              \cup (IF Thorough THEN {202, 302, 410, 415, 429, 502, 599} ELSE {})
 ElapsedOf(sel) == IF sel.mrt = 0 THEN {100} ELSE {sel.mrt \div 2, sel.mrt, sel.mrt + 1, 2 * sel.mrt}
 Uniform(st) == [valid |-> st, none |-> st, wrong |-> st]       \* an API that does not look at credentials
 MkResp(st, allow, ms, api) == [status |-> st, allow |-> allow, elapsed |-> ms, api |-> api]
